@@ -217,10 +217,18 @@ func checkResponse(tt *testing.T, c Case, info *pbt.Info) error {
 		if res.CleanEnd && res.Err != nil {
 			return fmt.Errorf("%s: call reported both a clean end and an error %v", where, res.Err)
 		}
-		if !enveloped && c.Ending == "eof" && k < n {
+		// (k == 0: an empty body is read as the zero message without consulting
+		// the decompressor — a different complete body again)
+		compressedUnary := !enveloped && b.Encoding != "" && len(b.Compress) > 0 && b.Compress[0] && resp.Status == 200 && k > 0
+		if !enveloped && c.Ending == "eof" && k < n && !compressedUnary {
 			// unary Connect: a shorter body with a clean EOF is a different
-			// complete body; not asserted (DESIGN §5 C04)
+			// complete body; not asserted (DESIGN §5 C04). A COMPRESSED body
+			// is another matter: the compression format marks its own end, so
+			// a cut is not a complete body and must not be taken for one.
 			continue
+		}
+		if compressedUnary && k < n {
+			info.Label("compressed-unary-body-cut")
 		}
 		if !isPrefix(res.Received, b.Msgs) {
 			return fmt.Errorf("%s: delivered messages %v are not a prefix of the %d sent", where, res.Received, len(b.Msgs))
